@@ -99,6 +99,11 @@ def gen_format():
         gen_encoder.generate(os.path.join(REPO, "src"), os.path.join(COQ, "Gen_encoder.v"))
     except Exception as e:
         raise CheckError("translator/encoder.py failed on /repo/src/cdns_encoder.cpp: %s" % e)
+    import decoder as gen_decoder
+    try:
+        gen_decoder.generate(os.path.join(REPO, "src"), os.path.join(COQ, "Gen_decoder.v"))
+    except Exception as e:
+        raise CheckError("translator/decoder.py failed on /repo/src/cdns_decoder.cpp: %s" % e)
     import cursors as gen_cursors
     try:
         gen_cursors.generate(os.path.join(REPO, "src"), os.path.join(COQ, "Gen_cursors.v"))
